@@ -304,6 +304,21 @@ Section Frame.
       destruct (k_frames c); destruct (f_op f =? OP_CONT); cbn [negb]; try exact I; destruct (f_fin f);
         first [apply P_refl | apply P_frames].
     Qed.
+
+    (* one frame through WebsocketStream.feed, Message.build and the dispatch of WebSocket.feed *)
+    Lemma fr_on_item_frame c f : P c (fst (fst (on_item cf app c (IFrame f)))).
+    Proof.
+      pose proof (fun a => ok_msg_events (EvProtocolError a)) as O7. cbn in O7.
+      unfold on_item. pose proof (fr_stream_frame c f) as Hs0.
+      destruct (stream_frame c f) as [c1|c1 frames|].
+      - exact Hs0.
+      - pose proof (fr_build_message c1 frames) as Hb. destruct (build_message c1 frames) as [c2 r]. cbn [fst] in Hb.
+        destruct r as [m|e].
+        + tr; [exact Hs0|]. tr; [exact Hb|apply fr_on_message].
+        + pose proof (fr_raise_in_feed c2 e O7) as Hr. destruct (raise_in_feed cf app c2 e) as [c3 st]. cbn [fst] in *.
+          tr; [exact Hs0|]. tr; [exact Hb|exact Hr].
+      - pose proof (fr_raise_in_feed c MProtocol O7) as Hr. destruct (raise_in_feed cf app c MProtocol) as [c3 st]. exact Hr.
+    Qed.
   End WithCfg.
 End Frame.
 
